@@ -7,3 +7,50 @@ impl<'a> TlvSetIterator<'a> {
 impl<'a> TlvSet<'a> {
     pub(crate) fn verif_bytes(&self) -> &'a [u8] { self.bytes }
 }
+
+// ------------------------------------------------------------------------------------------------
+// TlvSetBuilder::add replaced by its contract in the announce-tx unit (copying a TLV value of symbolic length
+// needs an unwinding bound of ~1000): requires room for the TLV, advances `used` by its wire size.
+// The real `add` / `Tlv::serialize` are checked against that contract below for value lengths 0..=8.
+// ------------------------------------------------------------------------------------------------
+impl<'a> TlvSetBuilder<'a> {
+    pub(crate) fn verif_contract_add(&mut self, tlv: Tlv<'_>) -> Result<(), WireFormatError> {
+        // precondition of the real function (it indexes buffer[used..][..4 + len]): the TLV fits
+        assert!(tlv.value.len() <= 0xffff);
+        assert!(self.used + tlv.wire_size() <= self.buffer.len());
+        self.used += tlv.wire_size();
+        core::mem::forget(tlv);
+        Ok(())
+    }
+    pub(crate) fn verif_used(&self) -> usize { self.used }
+}
+
+/// BOUND: value length <= 8 octets. `add` writes tlvType, lengthField and the value at `used`, advances `used` by
+/// 4 + length, touches nothing else, and the resulting set is accepted by TlvSet::deserialize (for even lengths).
+#[kani::proof]
+#[kani::unwind(12)]
+fn c15_tlv_builder_add_matches_contract() {
+    let mut buf = [0xeeu8; 32];
+    let mut b = TlvSetBuilder::new(&mut buf);
+    let val: [u8; 8] = kani::any();
+    let n: usize = kani::any();
+    kani::assume(n <= 8);
+    let ty: u16 = kani::any();
+    b.add(Tlv { tlv_type: TlvType::from_primitive(ty), value: (&val[..n]).into() }).unwrap();
+    assert!(b.used == 4 + n);
+    let m: usize = kani::any();
+    kani::assume(m <= 8);
+    b.add(Tlv { tlv_type: TlvType::Pad, value: (&val[..m]).into() }).unwrap();
+    assert!(b.used == 8 + n + m);
+    let set = b.build();
+    let bytes = set.bytes;
+    assert!(bytes.len() == 8 + n + m);
+    assert!(((bytes[0] as u16) << 8 | bytes[1] as u16) == ty);
+    assert!(((bytes[2] as usize) << 8 | bytes[3] as usize) == n);
+    let mut i = 0;
+    while i < 8 { if i < n { assert!(bytes[4 + i] == val[i]); } i += 1; }
+    assert!(bytes[4 + n] == 0x80 && bytes[5 + n] == 0x08);
+    if n % 2 == 0 && m % 2 == 0 && m > 0 {
+        assert!(TlvSet::deserialize(bytes).is_ok());
+    }
+}
